@@ -48,8 +48,10 @@ PLAN = {
     "C02": {"quick": [e2(7, 4), e1(16000, kinds=ALL_KINDS, profiles=["hoarder", "mixed", "burst"])],
             "thorough": [e2(9, 16), e1(240000, kinds=ALL_KINDS, profiles=["hoarder", "mixed", "burst"]), e3(20000)]},
     "C04": {"quick": [e2(7, 4), e1(16000)], "thorough": [e2(9, 16), e1(240000), e3(20000)]},
-    "C05": {"quick": [e2(7, 4), e1(16000, profiles=["prio_storm", "full_store", "hoarder"]), {"engine": "E1p", "params": {}, "cases": 12000}],
-            "thorough": [e2(9, 16), e1(200000, profiles=["prio_storm", "full_store", "hoarder"]), {"engine": "E1p", "params": {}, "cases": 160000}]},
+    "C05": {"quick": [e2(7, 4), e1(16000, profiles=["prio_storm", "full_store", "hoarder"]), {"engine": "E1p", "params": {}, "cases": 12000},
+                      {"engine": "E2p", "params": {}, "cases": 8736}],
+            "thorough": [e2(9, 16), e1(200000, profiles=["prio_storm", "full_store", "hoarder"]), {"engine": "E1p", "params": {}, "cases": 160000},
+                         {"engine": "E2p", "params": {}, "cases": 8736}]},
     "C06": {"quick": [e2(7, 4), e1(16000, profiles=["hoarder", "mixed"])],
             "thorough": [e2(9, 16), e1(240000, profiles=["hoarder", "mixed"]), e3(20000)]},
     "C07": {"quick": [e2(6, 4, illformed=True), e1(12000, kinds=ALL_KINDS, illformed=0.08)],
@@ -84,7 +86,7 @@ RULES = {
            "retrieval was bound while >=2 unreserved items were available; distinct by operation-log hash",
     "C04": "E1 histories; non-trivial = requests that had to wait were granted through >=2 different wake-up paths "
            "(put, get, cancel of put, cancel of get, timer); distinct by operation-log hash",
-    "C05": "E1 priority-storm histories; non-trivial = >=2 grants happened after waiting (so an order among waiting requests was decided); distinct by operation-log hash",
+    "C05": "E2p: exhaustive sweep of all priority sequences of length <=4 over {-1,0,1} x one optional cancellation x put/get side x same-instant/staggered arrivals on 4 store kinds (8736 cases, complete); E1 priority-storm histories; non-trivial = >=2 grants happened after waiting (so an order among waiting requests was decided); distinct by operation-log hash",
     "C06": "E1 hoarder histories; non-trivial = >=1 cancel of a granted retrieval and >=1 binding decided among >=2 candidate items; distinct by operation-log hash",
     "C03": "E3: random factories (templates line/fanin/diamond/multisink/pack/packunpack, every edge type, shuffled construction and connection order, "
            "variants plain/congested/starved/finite); non-trivial = >=1 discard or >=1 blocked push, and >=20 items received; distinct = sha256 of the model spec",
